@@ -18,11 +18,15 @@ namespace Ru
 inductive OpX where
   | base (o : Op)
   | syncTick (now : Int) (resps : List Resp) (pick : Nat) (ts : Int) (perm : List Tx) (rewardId : String)
+  /-- a submission admitted while the round waits for its neighbours (`AddTransaction` reads the chain and the
+      confirmed outputs, which the round does not touch before its commit section) -/
+  | syncSubmit (now : Int) (resps : List Resp) (pick : Nat) (tx : Tx)
 
 /-- the sequential operations an extended operation is made of -/
 def OpX.shadows : OpX → List Op
   | .base o => [o]
   | .syncTick now resps pick ts perm rewardId => [.tick ts perm rewardId, .sync now resps pick]
+  | .syncSubmit now resps pick tx => [.submit tx, .sync now resps pick]
 
 def OpX.WF (x : OpX) : Prop := ∀ o ∈ x.shadows, o.WF
 
@@ -38,6 +42,13 @@ def stepX (env : Env) (cfg : Cfg) (n : Node) : OpX → Node
       | some l => { n1 with led := l }
       | none => n1
     else n1
+  | .syncSubmit now resps pick tx =>
+    -- admission against the ledger the round started from (the round has not committed yet) …
+    let n1 := n.admitTx env cfg tx
+    -- … then the round's commit, on the snapshot (admission leaves the ledger alone)
+    match (Sync.outcomes env cfg n.led now resps)[pick]? with
+    | some l => { n1 with led := l }
+    | none => n1
 
 def runX (env : Env) (cfg : Cfg) (n : Node) (xs : List OpX) : Node := xs.foldl (stepX env cfg) n
 
